@@ -199,6 +199,30 @@ PENDING = {
         "F10 projection pushed through an aligned filter/assign/binary op: 'Mismatched divisions between multiple Blockwise dependencies'",
     'other:where-other:TypeError@backends.py:meta_nonempty_object':
         'F3 OpAlignPartitions projection passthrough projects only the left operand: extra columns / KeyError / pandas errors after a projection of (ddf op other_ddf)',
+    'astype:dict:category+str:TypeError@backends.py:_union_categoricals_wrapper':
+        "F12 follow-up: astype('category') after a partition-wise value-dependent dtype: categories of different dtypes cannot be unioned",
+    'astype:frame:category:any-layout:values':
+        'F14 isin values reach the partitions as an ndarray: Series(bool categorical).isin([0]) is all False in dask, pandas (list) matches False',
+    'expr-node:TypeError@GT._meta':
+        'F3 follow-up: projection of an aligned binary op returns NotImplemented operands; comparison meta raises TypeError',
+    'fillna:dict-value-then-projection:exception':
+        'F7 Fillna(dict) projection passthrough: dict applied to the projected Series gives object dtype; later arithmetic raises (e.g. ZeroDivisionError)',
+    'frame-arith:method:TypeError@backends.py:_union_categoricals_wrapper':
+        "F12 follow-up: astype('category') after a partition-wise value-dependent dtype: categories of different dtypes cannot be unioned",
+    'frame-arith:operator:TypeError@backends.py:_union_categoricals_wrapper':
+        "F12 follow-up: astype('category') after a partition-wise value-dependent dtype: categories of different dtypes cannot be unioned",
+    'other:assign:AssertionError@Projection._simplify_down':
+        'F2/F3 projection pushdown into a binary op whose operands have different columns: AssertionError',
+    'other:frame-arith:any-layout:column-order':
+        'F3 projection of (ddf.sub(other, fill_value=..)) loses the requested column order',
+    'other:mask:AttributeError@_accessor.py:operation':
+        "F11 apply(axis=1, meta=) on a partition emptied by an aligned filter returns pandas' empty float piece; .str fails",
+    'other:series-arith:TypeError@_expr.py:operation':
+        'F3 follow-up: un-projected DataFrame operand reaches Series.add',
+    'other:series-arith:any-layout:dtype':
+        'F12 partition-wise value-dependent dtype after aligned series arithmetic with partially overlapping indexes (int + NaN only in some partitions)',
+    'other:where-other:ValueError@compute':
+        "F4 Where/Mask projection passthrough leaves cond/other as DataFrames: 'Must specify axis=0 or 1'",
 }
 
 
@@ -553,8 +577,9 @@ def make_label(mini, layout, key):
     if any(_pred_is_astype(st) for st in steps):
         return "filter:predicate-is-astype-node:%s" % ("exception" if exc else "wrong-result")
     ifd = [i for i, st in enumerate(steps) if st["op"] == "fillna" and isinstance(st.get("value"), dict)]
-    if ifd and ifd[0] < len(steps) - 1 and not exc:
-        return "fillna:dict-value-then-projection:wrong-result"
+    if ifd and ifd[0] < len(steps) - 1 and not ("@" in key and key.split("@", 1)[1].split(".")[0] not in _GENERIC_OWNERS
+                                                and "." in key.split("@", 1)[1] and ":" not in key.split("@", 1)[1]):
+        return "fillna:dict-value-then-projection:%s" % ("exception" if exc else "wrong-result")
     ia = [i for i, f in enumerate(fams) if f.split(":")[0] == "astype" or f.startswith("series:astype")]
     if ia and any(st["op"] in ("filter", "sfilter") for st in steps[ia[0] + 1:]) and \
             not any(_rank(f) < _rank("astype") for f in fams):
